@@ -113,7 +113,7 @@ def run(ck, replay=None):
         ck.coverage_extra['outcomes'] = dist
         if badp:
             first_fail = {'case': badp[0][0], 'observed': badp[0][1], 'clause': 'Successful => genuine ordered orthonormal pairs; always finite'}
-        if lines and out:
+        if lines and len(out) > len(lines) // 2:
             ck.sample({'case': lines[len(lines) // 2], 'result': out[len(lines) // 2][:160]})
     ck.assumptions = ['driver theorems hold for every world W and oracle: they constrain status / counter / returned count, not the numerical quality of the Ritz pairs',
                       'Eigen::SelfAdjointEigenSolver and HouseholderQR are trusted; the cached-product identities are exact-arithmetic (the drift of the cache is what the true-residual run measures)',
